@@ -1,0 +1,7 @@
+//go:build !verif
+
+package m3
+
+func (r *reporter) verifAtSelectSend() {}
+func (r *reporter) verifAtMarkerSend() {}
+func (r *reporter) verifAtRecv()       {}
